@@ -1,13 +1,16 @@
 package drivers
 
 import (
+	"crypto/tls"
 	"encoding/json"
 	"io"
+	"net"
 	"reflect"
 	"runtime"
 	"strings"
 	"sync"
 	"time"
+	"verifharness/sctpmem"
 
 	"verifharness/memnet"
 
@@ -694,6 +697,14 @@ func CloseNotify(a Args) error {
 		if c.Via != "" {
 			via = c.Via
 		}
+		if c.Via == "sctp" {
+			out.Emit(runCNSCTP(id, c.Sched))
+			return nil
+		}
+		if c.Via == "tls" {
+			out.Emit(runCNTLS(id, len(c.Sched) > 0 && c.Sched[0] == "rerr"))
+			return nil
+		}
 		lateGate = true
 		out.Emit(runCN(id, &c, via))
 		// a schedule with a request after the termination is run twice: overlapping the exit path, and after it
@@ -728,6 +739,15 @@ func CloseNotify(a Args) error {
 			id++
 			out.Emit(runCNWatchdog(id, how))
 		}
+		// multi-stream associations; TLS connections whose handshake fails
+		for _, sc := range [][]string{{"m", "cn", "eof"}, {"m", "eof", "cn"}, {"cn", "m", "m", "eof", "cn"}, {"eof", "cn", "cn"}} {
+			id++
+			out.Emit(runCNSCTP(id, sc))
+		}
+		for _, after := range []bool{false, true} {
+			id++
+			out.Emit(runCNTLS(id, after))
+		}
 		// nobody reads the error reports: the second and third undecodable message find the slot occupied
 		for _, sc := range [][]string{{"mh", "x"}, {"mh", "m", "xt", "cn"}, {"cn", "m", "rerr"}, {"mh", "x", "cn"}} {
 			id++
@@ -735,4 +755,203 @@ func CloseNotify(a Args) error {
 		}
 	}
 	return nil
+}
+
+// runCNSCTP: a multi-stream association. Schedules are a subset of the byte-stream ones: "m" (a message on stream 1),
+// "cn" (CloseNotify requested from another goroutine), "eof" (the peer closes the association).
+func runCNSCTP(id int, sched []string) cnLine {
+	l := cnLine{Ev: "cn", ID: id, Via: "sctp", Sched: sched, Steps: []cnStep{}, InOrder: true, Events: []cnEvent{}}
+	base, _ := diamGoroutines()
+	as := sctpmem.New()
+	var mu sync.Mutex
+	delivered := 0
+	mux := diam.NewServeMux()
+	mux.HandleFunc("ALL", func(diam.Conn, *diam.Message) {
+		mu.Lock()
+		delivered++
+		mu.Unlock()
+	})
+	stop := make(chan struct{})
+	go func() {
+		for {
+			select {
+			case <-mux.ErrorReports():
+			case <-stop:
+				return
+			}
+		}
+	}()
+	dc, err := diam.NewConn(diam.NewSCTPConnVerif(as), "10.0.0.2:3868", mux, dict.Default)
+	if err != nil {
+		l.Note = err.Error()
+		close(stop)
+		return l
+	}
+	var chans []<-chan struct{}
+	next := uint32(0)
+	term := false
+	for _, ev := range sched {
+		hung := false
+		switch ev {
+		case "m":
+			next++
+			want := int(next)
+			as.Feed(1, cnGood(next, false))
+			deadline := time.Now().Add(2 * time.Second)
+			for time.Now().Before(deadline) {
+				mu.Lock()
+				ok := delivered >= want
+				mu.Unlock()
+				if ok {
+					break
+				}
+				time.Sleep(200 * time.Microsecond)
+			}
+			as.WaitReaderBlocked(time.Second)
+		case "cn":
+			done := make(chan (<-chan struct{}), 1)
+			go func() { done <- dc.(diam.CloseNotifier).CloseNotify() }()
+			select {
+			case ch := <-done:
+				chans = append(chans, ch)
+			case <-time.After(2 * time.Second):
+				hung = true
+			}
+		case "eof":
+			as.FeedEOF()
+			deadline := time.Now().Add(3 * time.Second)
+			for time.Now().Before(deadline) && !as.Closed() {
+				time.Sleep(200 * time.Microsecond)
+			}
+			term = true
+		}
+		if term {
+			deadline := time.Now().Add(600 * time.Millisecond)
+			for time.Now().Before(deadline) {
+				all := true
+				for _, ch := range chans {
+					if !isClosed(ch) {
+						all = false
+					}
+				}
+				if all {
+					break
+				}
+				time.Sleep(500 * time.Microsecond)
+			}
+		}
+		mu.Lock()
+		st := cnStep{Chans: []bool{}, Delivered: delivered, Held: []bool{}, Hung: hung, TClosed: as.Closed()}
+		mu.Unlock()
+		for _, ch := range chans {
+			st.Chans = append(st.Chans, isClosed(ch))
+		}
+		l.Steps = append(l.Steps, st)
+	}
+	close(stop)
+	if !as.Closed() {
+		as.Close()
+	}
+	deadline := time.Now().Add(600 * time.Millisecond)
+	for {
+		n, dump := diamGoroutines()
+		l.Goroutines, l.Dump = n-base, dump
+		if l.Goroutines <= 0 || time.Now().After(deadline) {
+			break
+		}
+		time.Sleep(time.Millisecond)
+	}
+	if l.Goroutines <= 0 {
+		l.Goroutines, l.Dump = 0, ""
+	}
+	return l
+}
+
+// runCNTLS: a client connection over TLS whose handshake fails (the peer swallows the ClientHello and hangs up):
+// the connection is over, and a CloseNotify channel requested meanwhile or afterwards is closed like any other
+func runCNTLS(id int, after bool) cnLine {
+	sched := []string{"cn", "rerr"}
+	if after {
+		sched = []string{"rerr", "cn"}
+	}
+	l := cnLine{Ev: "cn", ID: id, Via: "tls", Sched: sched, Steps: []cnStep{}, InOrder: true, Events: []cnEvent{}}
+	base, _ := diamGoroutines()
+	srvEnd, cliEnd := net.Pipe()
+	mux := diam.NewServeMux()
+	stop := make(chan struct{})
+	go func() {
+		for {
+			select {
+			case <-mux.ErrorReports():
+			case <-stop:
+				return
+			}
+		}
+	}()
+	tc := tls.Client(addrConn{cliEnd}, &tls.Config{InsecureSkipVerify: true})
+	dc, err := diam.NewConn(tc, "10.0.0.2:3868", mux, dict.Default)
+	if err != nil {
+		l.Note = err.Error()
+		close(stop)
+		return l
+	}
+	var chans []<-chan struct{}
+	hangup := func() {
+		buf := make([]byte, 4096)
+		srvEnd.SetReadDeadline(time.Now().Add(time.Second))
+		srvEnd.Read(buf) // the ClientHello
+		srvEnd.Close()
+		time.Sleep(20 * time.Millisecond)
+	}
+	for _, ev := range sched {
+		hung := false
+		if ev == "cn" {
+			done := make(chan (<-chan struct{}), 1)
+			go func() { done <- dc.(diam.CloseNotifier).CloseNotify() }()
+			select {
+			case ch := <-done:
+				chans = append(chans, ch)
+			case <-time.After(2 * time.Second):
+				hung = true
+			}
+		} else {
+			hangup()
+		}
+		term := ev == "rerr" || (after && ev == "cn")
+		if term {
+			deadline := time.Now().Add(600 * time.Millisecond)
+			for time.Now().Before(deadline) {
+				all := true
+				for _, ch := range chans {
+					if !isClosed(ch) {
+						all = false
+					}
+				}
+				if all {
+					break
+				}
+				time.Sleep(500 * time.Microsecond)
+			}
+		}
+		st := cnStep{Chans: []bool{}, Held: []bool{}, Hung: hung, TClosed: term}
+		for _, ch := range chans {
+			st.Chans = append(st.Chans, isClosed(ch))
+		}
+		l.Steps = append(l.Steps, st)
+	}
+	close(stop)
+	cliEnd.Close()
+	deadline := time.Now().Add(600 * time.Millisecond)
+	for {
+		n, dump := diamGoroutines()
+		l.Goroutines, l.Dump = n-base, dump
+		if l.Goroutines <= 0 || time.Now().After(deadline) {
+			break
+		}
+		time.Sleep(time.Millisecond)
+	}
+	if l.Goroutines <= 0 {
+		l.Goroutines, l.Dump = 0, ""
+	}
+	return l
 }
